@@ -81,6 +81,7 @@ type c20Case struct {
 	SpeedVal          float64
 	CourseDeg         int
 	Magnetic, Comment bool
+	NoLat, NoLon      bool // the report carries no latitude / no longitude (the fields are pointers)
 }
 
 func c20Body(c c20Case) (body string, validateErr error, panicMsg string) {
@@ -88,6 +89,12 @@ func c20Body(c c20Case) (body string, validateErr error, panicMsg string) {
 		p := catalog.PosReport{Date: time.Date(2020, 2, 29, 12, 34, 0, 0, time.UTC)}
 		lat, lon := c.Lat, c.Lon
 		p.Lat, p.Lon = &lat, &lon
+		if c.NoLat {
+			p.Lat = nil
+		}
+		if c.NoLon {
+			p.Lon = nil
+		}
 		if c.Speed {
 			s := c.SpeedVal
 			p.Speed = &s
@@ -184,6 +191,20 @@ func C20(args []string) {
 		}
 		la, ok1 := c20Field(body, "LATITUDE")
 		lo, ok2 := c20Field(body, "LONGITUDE")
+		if c.NoLat || c.NoLon {
+			// a report without a (complete) position is still a message; the position lines are judged
+			// only where the property speaks about them (both coordinates given, or none: no lines)
+			if c.NoLat && c.NoLon && (ok1 || ok2) {
+				report("position-lines-without-position", c, body)
+			}
+			_, hasS := c20Field(body, "SPEED")
+			_, hasC := c20Field(body, "COURSE")
+			_, hasM := c20Field(body, "COMMENT")
+			if hasS != c.Speed || hasC != c.Course || hasM != c.Comment {
+				report("optional-field-presence", c, body)
+			}
+			return
+		}
 		if !ok1 || !ok2 {
 			report("missing-lat-lon", c, body)
 			return
@@ -271,6 +292,12 @@ func C20(args []string) {
 				continue
 			}
 			judge(c20Case{Lat: 10.5, Lon: -20.25, Speed: opt&1 != 0, SpeedVal: sv, Comment: opt&2 != 0})
+		}
+	}
+	// reports without a latitude and/or a longitude, with every combination of the other optional fields
+	for pos := 1; pos < 4; pos++ {
+		for opt := 0; opt < 8; opt++ {
+			judge(c20Case{Lat: 10.5, Lon: -20.25, NoLat: pos&1 != 0, NoLon: pos&2 != 0, Speed: opt&1 != 0, SpeedVal: 5, Comment: opt&2 != 0, Course: opt&4 != 0, CourseDeg: 90})
 		}
 	}
 	// out-of-range courses must be refused
